@@ -804,3 +804,924 @@ Proof.
       destruct (fl_idle fl); inv_some Hs; constructor; red_all; auto;
       intros t' Hs; destruct (I_sched t' Hs) as [Hh|Hr]; auto using in_make_hot_keep.
 Qed.
+
+(* ---------------------------------------------------------------------- *)
+(* steps of a waker thread                                                 *)
+
+Lemma pushing_upd_new t ws i w w1 :
+  nth_error ws i = Some w -> pushing_w t w1 = true -> pushing t (upd ws i w1) = true.
+Proof. intros. unfold pushing. eapply existsb_upd_new; eauto. Qed.
+
+Lemma pushing_upd_keep t ws i w w1 :
+  nth_error ws i = Some w -> pushing t ws = true ->
+  pushing_w t w = false \/ pushing_w t w1 = true -> pushing t (upd ws i w1) = true.
+Proof.
+  intros Hn Hp [Hf|Ht]; [|eapply pushing_upd_new; eauto].
+  unfold pushing in *. destruct (existsb_upd_keep _ _ _ _ w1 Hn Hp) as [H|H]; [exact H|congruence].
+Qed.
+
+(* a step that only moves thread i (and possibly touches the driver part) *)
+Lemma g3_thread s i w w1 dd :
+  nth_error (wk s) i = Some w -> tgt w1 = tgt w -> seen w1 = seen w ->
+  (pushed (wp w) = true -> pushed (wp w1) = true) ->
+  mid_push (wp w1) = mid_push (wp w) ->
+  (forall t, tgt w = Some t -> task_effective (wp w1) = true -> task_effective (wp w) = true) ->
+  reserving (wp w1) = reserving (wp w) ->
+  (owner (wp w) = true -> owner (wp w1) = true) ->
+  match tgt w with None => main_pc (wp w1) = true | Some _ => task_pc (wp w1) = true end ->
+  G3 s -> G3 (s_d dd (set_w s i w1)).
+Proof.
+  intros Hn Ht Hse Hpu Hmid Heff Hres Hown Hshape H. dg3 H. dst s. unfold set_w. red_all.
+  constructor; red_all.
+  - intros t j Hin. destruct (I_qmem t j Hin) as (w' & Hn' & Htg & Hp).
+    destruct (Nat.eq_dec i j) as [->|Hne].
+    + rewrite Hn in Hn'. inversion Hn'; subst w'. exists w1.
+      split; [apply nth_error_upd_eq; eapply nth_error_lt; eauto|]. rewrite Ht. auto.
+    + exists w'. rewrite nth_error_upd_neq by exact Hne. auto.
+  - intros t Hs. destruct (I_sched t Hs) as [Hh|[Hq|Hp]]; auto.
+    right. right. eapply pushing_upd_keep; eauto.
+    unfold pushing_w. rewrite Ht, Hmid. destruct (tgt w); [|left; reflexivity].
+    destruct (Nat.eqb t n && mid_push (wp w)); auto.
+  - intros j w' t Hn' Htg He Hsn. apply nth_error_upd_cases in Hn'.
+    destruct Hn' as [(-> & -> & _)|(_ & Hn')].
+    + rewrite Ht in Htg. rewrite Hse in Hsn. eapply I_seen; eauto.
+    + eapply I_seen; eauto.
+  - pose proof (count_upd (fun w => reserving (wp w)) ws i w w1 Hn) as Hc. cbv beta in Hc.
+    rewrite Hres in Hc. lia.
+  - exact I_cap.
+  - intros t Hs. destruct (I_section t Hs) as (j & w' & Hn' & Htg & Ho).
+    destruct (Nat.eq_dec i j) as [->|Hne].
+    + rewrite Hn in Hn'. inversion Hn'; subst w'. exists j, w1.
+      split; [apply nth_error_upd_eq; eapply nth_error_lt; eauto|]. rewrite Ht. auto.
+    + exists j, w'. rewrite nth_error_upd_neq by exact Hne. auto.
+  - exact I_lens.
+  - intros j w' Hn'. apply nth_error_upd_cases in Hn'.
+    destruct Hn' as [(-> & -> & _)|(_ & Hn')]; [|apply (I_shape j w' Hn')].
+    specialize (I_shape i w Hn). rewrite Ht. destruct (tgt w); [|exact Hshape].
+    destruct I_shape. split; assumption.
+Qed.
+
+Ltac upd_cases H :=
+  apply nth_error_upd_cases in H;
+  let Hn' := fresh "Hn'" in
+  destruct H as [(-> & -> & _)|(_ & Hn')].
+
+(* WReserve -> WPush false: pending.fetch_add(1) *)
+Lemma g3_reserve s i w :
+  nth_error (wk s) i = Some w -> wp w = WReserve ->
+  G3 s -> G3 (set_w (s_e (e_pending (S (pending (e s))) (e s)) s) i (w_wp (WPush false) w)).
+Proof.
+  intros Hn Hw H. dg3 H. dst s. unfold set_w. red_all.
+  constructor; red_all.
+  - intros t j Hin. destruct (I_qmem t j Hin) as (w' & Hn' & Htg & Hp).
+    destruct (Nat.eq_dec i j) as [->|Hne].
+    + rewrite Hn in Hn'. inversion Hn'; subst w'. rewrite Hw in Hp. discriminate.
+    + exists w'. rewrite nth_error_upd_neq by exact Hne. auto.
+  - intros t Hs. destruct (I_sched t Hs) as [Hh|[Hq|Hp]]; auto.
+    right. right. eapply pushing_upd_keep; eauto.
+    unfold pushing_w. cbn [tgt wp w_wp]. rewrite Hw. destruct (tgt w); [|left; reflexivity].
+    destruct (Nat.eqb t n); cbn; auto.
+  - intros j w' t Hn' Htg He Hsn. upd_cases Hn'.
+    + cbn [tgt seen w_wp] in *. eapply I_seen; eauto. rewrite Hw. reflexivity.
+    + eapply I_seen; eauto.
+  - pose proof (count_upd (fun w => reserving (wp w)) ws i w (w_wp (WPush false) w) Hn) as Hc.
+    cbv beta in Hc. cbn [wp w_wp reserving] in Hc. rewrite Hw in Hc. cbn [reserving b2n] in Hc. lia.
+  - exact I_cap.
+  - intros t Hs. destruct (I_section t Hs) as (j & w' & Hn' & Htg & Ho).
+    destruct (Nat.eq_dec i j) as [->|Hne].
+    + rewrite Hn in Hn'. inversion Hn'; subst w'. exists j, (w_wp (WPush false) w).
+      split; [apply nth_error_upd_eq; eapply nth_error_lt; eauto|]. auto.
+    + exists j, w'. rewrite nth_error_upd_neq by exact Hne. auto.
+  - exact I_lens.
+  - intros j w' Hn'. upd_cases Hn'; [|apply (I_shape j w' Hn'0)].
+    specialize (I_shape i w Hn). cbn [tgt wp w_wp]. destruct (tgt w); [|rewrite Hw in I_shape; discriminate].
+    destruct I_shape. split; [reflexivity|assumption].
+Qed.
+
+(* WPush -> WFetch KPushed: sync.push succeeded *)
+Lemma g3_push s i w t nt :
+  nth_error (wk s) i = Some w -> wp w = WPush nt -> tgt w = Some t ->
+  length (queue (e s)) < qcap (c s) ->
+  G3 s -> G3 (set_w (s_e (e_queue (queue (e s) ++ [(t, i)]) (e s)) s) i (w_wp (WFetch KPushed) w)).
+Proof.
+  intros Hn Hw Htg Hlen H. dg3 H. dst s. unfold set_w. red_all.
+  constructor; red_all.
+  - intros t' j Hin. apply in_app_or in Hin. destruct Hin as [Hin|[Hin|[]]].
+    + destruct (I_qmem t' j Hin) as (w' & Hn' & Htg' & Hp).
+      destruct (Nat.eq_dec i j) as [->|Hne].
+      * rewrite Hn in Hn'. inversion Hn'; subst w'. rewrite Hw in Hp. discriminate.
+      * exists w'. rewrite nth_error_upd_neq by exact Hne. auto.
+    + inversion Hin; subst t' j. exists (w_wp (WFetch KPushed) w).
+      split; [apply nth_error_upd_eq; eapply nth_error_lt; eauto|]. auto.
+  - intros t' Hs. destruct (Nat.eq_dec t' t) as [->|Hne].
+    + right. left. exists i. apply in_or_app. right. left. reflexivity.
+    + destruct (I_sched t' Hs) as [Hh|[(j & Hq)|Hp]]; auto.
+      * right. left. exists j. apply in_or_app. left. exact Hq.
+      * right. right. eapply pushing_upd_keep; eauto.
+        left. unfold pushing_w. rewrite Htg.
+        destruct (Nat.eqb t' t) eqn:E; [apply Nat.eqb_eq in E; contradiction|reflexivity].
+  - intros j w' t' Hn' Htg' He Hsn. upd_cases Hn'.
+    + cbn [tgt seen w_wp] in *. eapply I_seen; eauto. rewrite Hw. reflexivity.
+    + eapply I_seen; eauto.
+  - pose proof (count_upd (fun w => reserving (wp w)) ws i w (w_wp (WFetch KPushed) w) Hn) as Hc.
+    cbv beta in Hc. cbn [wp w_wp reserving] in Hc. rewrite Hw in Hc. cbn [reserving b2n] in Hc.
+    rewrite app_length. cbn [length]. lia.
+  - rewrite app_length. cbn [length]. lia.
+  - intros t' Hs. destruct (I_section t' Hs) as (j & w' & Hn' & Htg' & Ho).
+    destruct (Nat.eq_dec i j) as [->|Hne].
+    + rewrite Hn in Hn'. inversion Hn'; subst w'. exists j, (w_wp (WFetch KPushed) w).
+      split; [apply nth_error_upd_eq; eapply nth_error_lt; eauto|]. auto.
+    + exists j, w'. rewrite nth_error_upd_neq by exact Hne. auto.
+  - exact I_lens.
+  - intros j w' Hn'. upd_cases Hn'; [|apply (I_shape j w' Hn'0)].
+    specialize (I_shape i w Hn). cbn [tgt wp w_wp]. rewrite Htg in *.
+    destruct I_shape. split; [reflexivity|assumption].
+Qed.
+
+(* WCoal / WFinish -> WDone: finish_scheduling *)
+Lemma g3_finish s i w t :
+  nth_error (wk s) i = Some w -> (wp w = WCoal \/ wp w = WFinish) -> tgt w = Some t ->
+  G3 s -> G3 (set_w (s_e (e_sching (upd (sching (e s)) t false) (e s)) s) i (w_wp WDone w)).
+Proof.
+  intros Hn Hw Htg H. dg3 H. dst s. unfold set_w. red_all.
+  assert (Hnp : pushing_w t w = false /\ reserving (wp w) = false /\
+                task_effective (wp w) = true /\ (pushed (wp w) = true -> True)).
+  { unfold pushing_w. rewrite Htg. destruct Hw as [-> | ->]; cbn; rewrite ?andb_false_r; auto. }
+  destruct Hnp as (Hnp & Hnr & Heff & _).
+  constructor; red_all.
+  - intros t' j Hin. destruct (I_qmem t' j Hin) as (w' & Hn' & Htg' & Hp).
+    destruct (Nat.eq_dec i j) as [->|Hne].
+    + rewrite Hn in Hn'. inversion Hn'; subst w'. exists (w_wp WDone w).
+      split; [apply nth_error_upd_eq; eapply nth_error_lt; eauto|]. auto.
+    + exists w'. rewrite nth_error_upd_neq by exact Hne. auto.
+  - intros t' Hs. destruct (I_sched t' Hs) as [Hh|[Hq|Hp]]; auto.
+    right. right. eapply pushing_upd_keep; eauto. left.
+    unfold pushing_w. rewrite Htg. destruct Hw as [-> | ->]; cbn; rewrite ?andb_false_r; reflexivity.
+  - intros j w' t' Hn' Htg' He Hsn. upd_cases Hn'.
+    + cbn [tgt seen w_wp] in *. eapply I_seen; eauto.
+    + eapply I_seen; eauto.
+  - pose proof (count_upd (fun w => reserving (wp w)) ws i w (w_wp WDone w) Hn) as Hc.
+    cbv beta in Hc. cbn [wp w_wp reserving] in Hc. rewrite Hnr in Hc. cbn [b2n] in Hc. lia.
+  - exact I_cap.
+  - intros t' Hs.
+    assert (Hne : t' <> t).
+    { intros ->. destruct (Nat.lt_ge_cases t (length sg)) as [Hl|Hl].
+      - rewrite nth_error_upd_eq in Hs by exact Hl. discriminate.
+      - apply nth_error_lt in Hs. rewrite upd_length in Hs. lia. }
+    rewrite nth_error_upd_neq in Hs by (intro; apply Hne; auto).
+    destruct (I_section t' Hs) as (j & w' & Hn' & Htg' & Ho).
+    destruct (Nat.eq_dec i j) as [->|Hnj].
+    + rewrite Hn in Hn'. inversion Hn'; subst w'. congruence.
+    + exists j, w'. rewrite nth_error_upd_neq by exact Hnj. auto.
+  - rewrite upd_length. exact I_lens.
+  - intros j w' Hn'. upd_cases Hn'; [|apply (I_shape j w' Hn'0)].
+    specialize (I_shape i w Hn). cbn [tgt wp w_wp]. rewrite Htg in *.
+    destruct I_shape. split; [reflexivity|assumption].
+Qed.
+
+(* WIdle / WSection: start_scheduling *)
+Lemma g3_start s i w t prior nx :
+  nth_error (wk s) i = Some w -> (wp w = WIdle \/ wp w = WSection) -> tgt w = Some t ->
+  nth_error (sched (e s)) t = Some prior ->
+  ((nx = WSection \/ nx = WReserve) \/ (prior = true /\ wp w = WIdle /\ (nx = WDone \/ nx = WCoal))) ->
+  (owner nx = true \/ nth_error (sching (e s)) t = Some true) ->
+  G3 s ->
+  G3 (set_w (s_e (e_sching (upd (sching (e s)) t true) (e_sched (upd (sched (e s)) t true) (e s))) s)
+        i (w_wp nx w)).
+Proof.
+  intros Hn Hw Htg Hpr Hnp Hown H. dg3 H. dst s. unfold set_w. red_all.
+  pose proof (nth_error_lt _ _ _ Hpr) as Htl.
+  assert (Hold : pushed (wp w) = false /\ reserving (wp w) = false /\ owner (wp w) = false).
+  { destruct Hw as [-> | ->]; cbn; auto. }
+  destruct Hold as (Hop & Hor & Hoo).
+  assert (Hnew : reserving nx = false /\ task_pc nx = true /\ task_effective nx = true).
+  { destruct Hnp as [[-> | ->]|(_ & _ & [-> | ->])]; cbn; repeat split; reflexivity. }
+  destruct Hnew as (Hnr & Hntp & Hneff).
+  constructor; red_all.
+  - intros t' j Hin. destruct (I_qmem t' j Hin) as (w' & Hn' & Htg' & Hp).
+    destruct (Nat.eq_dec i j) as [->|Hne].
+    + rewrite Hn in Hn'. inversion Hn'; subst w'. congruence.
+    + exists w'. rewrite nth_error_upd_neq by exact Hne. auto.
+  - intros t' Hs. destruct (Nat.eq_dec t' t) as [->|Hne].
+    + destruct Hnp as [Hm|(-> & Hwi & _)].
+      * right. right. eapply pushing_upd_new; eauto. unfold pushing_w. cbn [tgt wp w_wp].
+        rewrite Htg, Nat.eqb_refl. destruct Hm as [-> | ->]; reflexivity.
+      * destruct (I_sched t Hpr) as [Hh|[Hq|Hp]]; auto.
+        right. right. eapply pushing_upd_keep; eauto. left.
+        unfold pushing_w. rewrite Htg, Hwi. cbn. apply andb_false_r.
+    + rewrite nth_error_upd_neq in Hs by (intro; apply Hne; auto).
+      destruct (I_sched t' Hs) as [Hh|[Hq|Hp]]; auto.
+      right. right. eapply pushing_upd_keep; eauto. left.
+      unfold pushing_w. rewrite Htg.
+      destruct (Nat.eqb t' t) eqn:E; [apply Nat.eqb_eq in E; contradiction|reflexivity].
+  - assert (Hsc : forall t', nth_error sc t' = Some true -> nth_error (upd sc t true) t' = Some true).
+    { intros t' Ht'. destruct (Nat.eq_dec t t') as [<-|Hne];
+        [apply nth_error_upd_eq; exact Htl|rewrite nth_error_upd_neq by exact Hne; exact Ht']. }
+    intros j w' t' Hn' Htg' He Hsn. upd_cases Hn'.
+    + cbn [tgt seen w_wp] in *. rewrite Htg in Htg'. inversion Htg'; subst t'.
+      apply nth_error_upd_eq. exact Htl.
+    + apply Hsc. eapply I_seen; eauto.
+  - pose proof (count_upd (fun w => reserving (wp w)) ws i w (w_wp nx w) Hn) as Hc.
+    cbv beta in Hc. cbn [wp w_wp] in Hc. rewrite Hor, Hnr in Hc. lia.
+  - exact I_cap.
+  - intros t' Hs. destruct (Nat.eq_dec t' t) as [->|Hne].
+    + destruct Hown as [Ho|Hheld].
+      * exists i, (w_wp nx w). split; [apply nth_error_upd_eq; eapply nth_error_lt; eauto|]. auto.
+      * destruct (I_section t Hheld) as (j & w' & Hn' & Htg' & Ho).
+        destruct (Nat.eq_dec i j) as [->|Hnj].
+        -- rewrite Hn in Hn'. inversion Hn'; subst w'. congruence.
+        -- exists j, w'. rewrite nth_error_upd_neq by exact Hnj. auto.
+    + rewrite nth_error_upd_neq in Hs by (intro; apply Hne; auto).
+      destruct (I_section t' Hs) as (j & w' & Hn' & Htg' & Ho).
+      destruct (Nat.eq_dec i j) as [->|Hnj].
+      * rewrite Hn in Hn'. inversion Hn'; subst w'. congruence.
+      * exists j, w'. rewrite nth_error_upd_neq by exact Hnj. auto.
+  - rewrite !upd_length. exact I_lens.
+  - intros j w' Hn'. rewrite upd_length. upd_cases Hn'; [|apply (I_shape j w' Hn'0)].
+    cbn [tgt wp w_wp]. rewrite Htg. split; assumption.
+Qed.
+
+Lemma ob_notified g s : has_notified (flag (d s)) = true -> ob g s.
+Proof. intros H. destruct g; cbn; auto. Qed.
+
+Lemma ob_mono g s s' :
+  ext (c s') = ext (c s) -> r s' = r s ->
+  (flag (d s') = flag (d s) \/ flag (d s') = fl_wake (flag (d s))) ->
+  ob g s -> ob g s'.
+Proof.
+  intros _ Hr Hf H. destruct g; cbn in *; auto.
+  - destruct Hf as [-> | ->]; [exact H|apply hn_wake].
+  - rewrite Hr. destruct H as [H|H]; [left; exact H|right].
+    destruct Hf as [-> | ->]; [exact H|apply hn_wake].
+Qed.
+
+Lemma reg_main_eq s s' : c s' = c s -> r s' = r s -> reg_main s' = reg_main s.
+Proof. intros Hc Hr. unfold reg_main. rewrite Hc, Hr. reflexivity. Qed.
+Lemma reg_drain_eq s s' : c s' = c s -> r s' = r s -> reg_drain s' = reg_drain s.
+Proof. intros Hc Hr. unfold reg_drain. rewrite (reg_main_eq s s' Hc Hr), Hr. reflexivity. Qed.
+
+Lemma g1_w_frame s s' :
+  c s' = c s -> r s' = r s -> hot (e s') = hot (e s) ->
+  sqarm (d s') = sqarm (d s) -> need_push (d s') = need_push (d s) ->
+  karmed (d s') = karmed (d s) -> cq (d s') = cq (d s) ->
+  (fl_idle (flag (d s)) = true \/ has_notified (flag (d s)) = true ->
+   fl_idle (flag (d s')) = true \/ has_notified (flag (d s')) = true) ->
+  ((has_notified (flag (d s)) = true -> 0 < efd (d s) \/ writers s = true) ->
+   fl_idle (flag (d s)) = true \/ has_notified (flag (d s)) = true ->
+   has_notified (flag (d s')) = true -> 0 < efd (d s') \/ writers s' = true) ->
+  G1 s -> G1 s'.
+Proof.
+  intros Hc Hr Hh Hsq Hne Hka Hcq Hfa Hfb H. dg1 H.
+  pose proof (reg_main_eq s s' Hc Hr) as Hreg.
+  constructor; rewrite ?Hreg, ?Hc, ?Hr, ?Hh, ?Hsq, ?Hne, ?Hka, ?Hcq; auto.
+Qed.
+
+Lemma g2_w_frame s s' i w w1 :
+  c s' = c s -> r s' = r s ->
+  nth_error (wk s) i = Some w -> wk s' = upd (wk s) i w1 ->
+  tgt w1 = tgt w -> seen w1 = seen w ->
+  (queue (e s') = queue (e s) \/
+   exists t, queue (e s') = queue (e s) ++ [(t, i)] /\ notified_after (wp w1) = false /\
+             pushed (wp w) = false) ->
+  (flag (d s') = flag (d s) \/ flag (d s') = fl_wake (flag (d s))) ->
+  (tgt w = None -> main_effective (wp w1) = true ->
+   main_effective (wp w) = true \/ has_notified (flag (d s')) = true) ->
+  (forall t, In (t, i) (queue (e s)) -> notified_after (wp w1) = true ->
+   notified_after (wp w) = true \/ has_notified (flag (d s')) = true) ->
+  G2 s -> G2 s'.
+Proof.
+  intros Hc Hr Hn Hw Ht Hse Hq Hf Hme Hna H. dg2 H.
+  assert (Hmono : forall g, ob g s -> ob g s').
+  { intros g. apply ob_mono; [rewrite Hc; reflexivity|exact Hr|exact Hf]. }
+  constructor; rewrite ?(reg_main_eq s s' Hc Hr), ?(reg_drain_eq s s' Hc Hr), Hw.
+  - intros j w' Hn' Htg He Hsn. apply nth_error_upd_cases in Hn'.
+    destruct Hn' as [(-> & -> & _)|(_ & Hn')].
+    + rewrite Ht in Htg. rewrite Hse in Hsn. destruct (Hme Htg He) as [He'|Hno].
+      * apply Hmono. eapply I_main; eauto.
+      * apply ob_notified. exact Hno.
+    + apply Hmono. eapply I_main; eauto.
+  - intros t j w' Hin Hn' He.
+    assert (Hold : In (t, j) (queue (e s)) -> ob (reg_drain s) s').
+    { intros Hin'. apply nth_error_upd_cases in Hn'.
+      destruct Hn' as [(-> & -> & _)|(_ & Hn')].
+      - destruct (Hna t Hin' He) as [He'|Hno]; [apply Hmono; eapply I_q; eauto|apply ob_notified; exact Hno].
+      - apply Hmono. eapply I_q; eauto. }
+    destruct Hq as [Hq|(t0 & Hq & Hnn & Hnp)]; rewrite Hq in Hin; [auto|].
+    apply in_app_or in Hin. destruct Hin as [Hin|[Hin|[]]]; [auto|].
+    inversion Hin; subst t0 j.
+    rewrite nth_error_upd_eq in Hn' by (eapply nth_error_lt; eauto). inversion Hn'; subst w'.
+    congruence.
+Qed.
+
+Lemma writers_keep ws i w w1 :
+  nth_error ws i = Some w -> is_write (wp w) = false ->
+  existsb (fun w => is_write (wp w)) ws = true ->
+  existsb (fun w => is_write (wp w)) (upd ws i w1) = true.
+Proof.
+  intros Hn Hf He. destruct (existsb_upd_keep _ _ _ _ w1 Hn He) as [H|H]; [exact H|].
+  cbv beta in H. congruence.
+Qed.
+
+Lemma g1_w_same s s' i w w1 :
+  c s' = c s -> r s' = r s -> d s' = d s -> hot (e s') = hot (e s) ->
+  nth_error (wk s) i = Some w -> wk s' = upd (wk s) i w1 -> is_write (wp w) = false ->
+  G1 s -> G1 s'.
+Proof.
+  intros Hc Hr Hd Hh Hn Hw Hnw H.
+  apply (g1_w_frame s s'); auto; try (rewrite Hd; reflexivity).
+  - rewrite Hd. auto.
+  - rewrite Hd. intros IH _ Hno. destruct (IH Hno) as [He|He]; [left; exact He|right].
+    unfold writers in *. rewrite Hw. eapply writers_keep; eauto.
+Qed.
+
+Lemma g2_w_same s s' i w w1 :
+  c s' = c s -> r s' = r s -> d s' = d s -> queue (e s') = queue (e s) ->
+  nth_error (wk s) i = Some w -> wk s' = upd (wk s) i w1 ->
+  tgt w1 = tgt w -> seen w1 = seen w ->
+  (tgt w = None -> main_effective (wp w1) = true -> main_effective (wp w) = true) ->
+  (forall t, In (t, i) (queue (e s)) -> notified_after (wp w1) = true -> notified_after (wp w) = true) ->
+  G2 s -> G2 s'.
+Proof.
+  intros Hc Hr Hd Hq Hn Hw Ht Hse Hme Hna H.
+  eapply (g2_w_frame s s' i w w1); eauto.
+  left. rewrite Hd. reflexivity.
+Qed.
+
+Lemma no_item s i w :
+  G3 s -> nth_error (wk s) i = Some w -> pushed (wp w) = false ->
+  forall t, In (t, i) (queue (e s)) -> False.
+Proof.
+  intros H3 Hn Hp t Hin. destruct (i_qmem _ H3 t i Hin) as (w' & Hn' & _ & Hp').
+  rewrite Hn in Hn'. inversion Hn'; subst. congruence.
+Qed.
+
+
+Lemma after_not_write k : is_write (after k) = false.
+Proof. destruct k; reflexivity. Qed.
+
+
+
+Ltac refl_all := try reflexivity.
+
+Lemma inv_fetch s i w k :
+  Inv s -> nth_error (wk s) i = Some w -> wp w = WFetch k ->
+  Inv (set_w (s_d (d_flag (fl_wake (flag (d s))) (d s)) s) i
+         (w_wp (if fl_idle (flag (d s)) then WWrite k else after k) w)).
+Proof.
+  intros [H1 H2 H3] Hn Hwp.
+  pose proof (i_shape _ H3 i w Hn) as Hsh. rewrite Hwp in Hsh.
+  set (f := flag (d s)).
+  set (nx := if fl_idle f then WWrite k else after k).
+  constructor.
+  - eapply (g1_w_frame s); refl_all.
+    + intros _. right. cbn [flag d set_w s_wk s_d d_flag]. apply hn_wake.
+    + intros IH Hor _. change (flag (d s)) with f in IH, Hor.
+      destruct (fl_idle f) eqn:Hidle.
+      * right. unfold writers. cbn [wk set_w s_wk s_d]. eapply existsb_upd_new; eauto.
+      * destruct Hor as [Hx|Hno]; [discriminate|].
+        destruct (IH Hno) as [He|He]; [left; exact He|right].
+        unfold writers in *. cbn [wk set_w s_wk s_d]. eapply writers_keep; eauto.
+        rewrite Hwp. reflexivity.
+    + exact H1.
+  - eapply (g2_w_frame s _ i w (w_wp nx w)); refl_all; eauto;
+      try (intros; right; cbn [flag d set_w s_wk s_d d_flag]; apply hn_wake);
+      try (right; reflexivity).
+  - apply (g3_thread s i w (w_wp nx w)); auto; rewrite ?Hwp; unfold nx;
+      destruct (tgt w); destruct k; destruct (fl_idle f); cbn in *; auto; try discriminate;
+      try (destruct Hsh; discriminate).
+Qed.
+
+Lemma inv_write s i w k :
+  Inv s -> nth_error (wk s) i = Some w -> wp w = WWrite k ->
+  Inv (set_w (s_d (d_efd (notify_efd (c s) (efd (d s))) (d s)) s) i (w_wp (after k) w)).
+Proof.
+  intros [H1 H2 H3] Hn Hwp.
+  pose proof (i_shape _ H3 i w Hn) as Hsh. rewrite Hwp in Hsh.
+  constructor.
+  - eapply (g1_w_frame s); refl_all; auto.
+    intros _ _ _. left. cbn. unfold notify_efd. destruct (uring (c s)); lia.
+  - eapply (g2_w_frame s _ i w (w_wp (after k) w)); refl_all; eauto;
+      try (left; reflexivity); intros; rewrite ?Hwp in *;
+      try match goal with
+          | Hin : In (_, i) (queue (e s)) |- _ =>
+            destruct k; cbn in *; auto;
+            exfalso; eapply (no_item s i w); eauto; rewrite Hwp; reflexivity
+          end;
+      destruct k; cbn in *; auto; try discriminate;
+      match goal with Ht : tgt w = None |- _ => rewrite Ht in Hsh; discriminate end.
+  - apply (g3_thread s i w (w_wp (after k) w)); auto; rewrite ?Hwp;
+      destruct (tgt w); destruct k; cbn in *; auto; try discriminate;
+      try (destruct Hsh; discriminate).
+Qed.
+
+Lemma inv_w s i s' : Inv s -> w_step current s i = Some s' -> Inv s'.
+Proof.
+  intros [H1 H2 H3] Hs. unfold w_step in Hs.
+  destruct (nth_error (wk s) i) as [w|] eqn:Hn; [|discriminate].
+  pose proof (i_shape _ H3 i w Hn) as Hsh.
+  destruct (wp w) eqn:Hwp; destruct (tgt w) as [t|] eqn:Htg; try discriminate.
+  - (* WIdle, task: start_scheduling *)
+    destruct (nth_error (sched (e s)) t) as [prior|] eqn:Hpr; [|discriminate].
+    inv_some Hs.
+    set (held := match nth_error (sching (e s)) t with Some b => b | None => false end).
+    set (nx := if prior then if held then WDone else WCoal else if held then WSection else WReserve).
+    assert (Hnx1 : (nx = WSection \/ nx = WReserve) \/
+                   (prior = true /\ wp w = WIdle /\ (nx = WDone \/ nx = WCoal))).
+    { unfold nx. destruct prior, held; auto 6. }
+    assert (Hnx2 : owner nx = true \/ nth_error (sching (e s)) t = Some true).
+    { unfold nx, held. destruct (nth_error (sching (e s)) t) as [[|]|]; destruct prior; auto. }
+    constructor.
+    + eapply (g1_w_same s _ i w (w_wp nx w)); refl_all; eauto. rewrite Hwp. reflexivity.
+    + eapply (g2_w_same s _ i w (w_wp nx w)); refl_all; eauto.
+      * rewrite Htg. discriminate.
+      * intros t' Hin. exfalso. eapply (no_item s i w); eauto. rewrite Hwp. reflexivity.
+    + eapply g3_start; eauto.
+  - (* WIdle, main future *)
+    inv_some Hs. constructor.
+    + eapply (g1_w_same s _ i w); refl_all; eauto. rewrite Hwp. reflexivity.
+    + eapply (g2_w_same s _ i w); refl_all; eauto.
+      * cbn. discriminate.
+      * cbn. discriminate.
+    + apply (g3_thread s i w (w_wp (WFetch KMain) w) (d s)); auto; rewrite ?Hwp, ?Htg; cbn; auto; discriminate.
+  - (* WCoal *)
+    inv_some Hs. constructor.
+    + eapply (g1_w_same s _ i w); refl_all; eauto. rewrite Hwp. reflexivity.
+    + eapply (g2_w_same s _ i w); refl_all; eauto.
+      * rewrite Htg. discriminate.
+      * intros t' Hin. exfalso. eapply (no_item s i w); eauto. rewrite Hwp. reflexivity.
+    + eapply g3_finish; eauto.
+  - (* WSection *)
+    inv_some Hs.
+    set (held := match nth_error (sching (e s)) t with Some b => b | None => false end).
+    set (nx := if held then WSection else WReserve).
+    destruct Hsh as (_ & Htl).
+    destruct (nth_error (sched (e s)) t) as [prior|] eqn:Hpr;
+      [|apply nth_error_None in Hpr; lia].
+    assert (Hnx1 : (nx = WSection \/ nx = WReserve) \/
+                   (prior = true /\ wp w = WIdle /\ (nx = WDone \/ nx = WCoal))).
+    { unfold nx. destruct held; auto. }
+    assert (Hnx2 : owner nx = true \/ nth_error (sching (e s)) t = Some true).
+    { unfold nx, held. destruct (nth_error (sching (e s)) t) as [[|]|]; auto. }
+    constructor.
+    + eapply (g1_w_same s _ i w (w_wp nx w)); refl_all; eauto. rewrite Hwp. reflexivity.
+    + eapply (g2_w_same s _ i w (w_wp nx w)); refl_all; eauto.
+      * rewrite Htg. discriminate.
+      * intros t' Hin. exfalso. eapply (no_item s i w); eauto. rewrite Hwp. reflexivity.
+    + eapply g3_start; eauto.
+  - (* WReserve *)
+    inv_some Hs. constructor.
+    + eapply (g1_w_same s _ i w); refl_all; eauto. rewrite Hwp. reflexivity.
+    + eapply (g2_w_same s _ i w); refl_all; eauto.
+      * rewrite Htg. discriminate.
+      * cbn. discriminate.
+    + eapply g3_reserve; eauto.
+  - (* WPush *)
+    destruct (Nat.ltb (length (queue (e s))) (qcap (c s))) eqn:Hfull.
+    + apply Nat.ltb_lt in Hfull. replace (nt && negb (v_wake_after_spin current)) with false in Hs
+        by (cbn; rewrite andb_false_r; reflexivity).
+      inv_some Hs. constructor.
+      * eapply (g1_w_same s _ i w); refl_all; eauto. rewrite Hwp. reflexivity.
+      * eapply (g2_w_frame s _ i w (w_wp (WFetch KPushed) w)); refl_all; eauto.
+        -- right. exists t. split; [reflexivity|]. rewrite Hwp. split; reflexivity.
+        -- rewrite Htg. discriminate.
+        -- cbn. discriminate.
+      * eapply g3_push; eauto.
+    + destruct nt.
+      * inv_some Hs. constructor; assumption.
+      * inv_some Hs. constructor.
+        -- eapply (g1_w_same s _ i w); refl_all; eauto. rewrite Hwp. reflexivity.
+        -- eapply (g2_w_same s _ i w); refl_all; eauto.
+           ++ rewrite Htg. discriminate.
+           ++ cbn. discriminate.
+        -- apply (g3_thread s i w (w_wp (WFetch KSpin) w) (d s)); auto; rewrite ?Hwp, ?Htg; cbn; auto; discriminate.
+  - (* WFetch, task *) inv_some Hs. apply inv_fetch; auto. constructor; assumption.
+  - (* WFetch, main *) inv_some Hs. apply inv_fetch; auto. constructor; assumption.
+  - (* WWrite, task *) inv_some Hs. apply inv_write; auto. constructor; assumption.
+  - (* WWrite, main *) inv_some Hs. apply inv_write; auto. constructor; assumption.
+  - (* WFinish *)
+    inv_some Hs. constructor.
+    + eapply (g1_w_same s _ i w); refl_all; eauto. rewrite Hwp. reflexivity.
+    + eapply (g2_w_same s _ i w); refl_all; eauto.
+      * rewrite Htg. discriminate.
+      * intros. rewrite Hwp. reflexivity.
+    + eapply g3_finish; eauto.
+Qed.
+
+(* ---------------------------------------------------------------------- *)
+(* every label, every reachable state                                      *)
+
+Theorem inv_step s l s' : Inv s -> step s l = Some s' -> Inv s'.
+Proof.
+  intros Hi Hs. destruct l.
+  - eapply inv_rt; eauto.
+  - eapply inv_timeout; eauto.
+  - eapply inv_skip; eauto.
+  - eapply inv_local; eauto.
+  - eapply (inv_kernel s LKNotify); auto.
+  - eapply (inv_kernel s LKOther); auto.
+  - eapply (inv_kernel s LKTerm); auto.
+  - eapply inv_w; eauto.
+Qed.
+
+Theorem inv_steps ls : forall s s', Inv s -> steps s ls = Some s' -> Inv s'.
+Proof.
+  induction ls as [|l ls IH]; intros s s' Hi Hs.
+  - cbn in Hs. inversion Hs; subst. exact Hi.
+  - unfold steps in Hs. cbn [steps_v] in Hs.
+    destruct (step_v current s l) as [s1|] eqn:E; [|discriminate].
+    eapply IH; [eapply inv_step; eauto|exact Hs].
+Qed.
+
+Theorem reachable_inv cf n tg ls s :
+  targets_ok n tg -> steps (init cf n tg) ls = Some s -> Inv s.
+Proof. intros Hok Hs. eapply inv_steps; [apply init_inv; exact Hok|exact Hs]. Qed.
+
+(* ---------------------------------------------------------------------- *)
+(* C03: no lost wake-up                                                    *)
+
+Definition progress (s : st) : bool := ready s || knotify_enabled s || some_in_flight s.
+
+Lemma wait_facts s :
+  Inv s -> at_wait s = true ->
+  reg_main s = Idle /\ reg_drain s = Idle /\ nw (r s) = true /\ rem (r s) = false /\
+  hot (e s) = [] /\ (uring (c s) = true -> karmed (d s) = true \/ In CFinal (cq (d s))).
+Proof.
+  intros [H1 _ _] Hw. dg1 H1. dst s. unfold at_wait in Hw. red_all.
+  destruct p; try discriminate; cbn [np_pc h_pc ext_pc] in *.
+  - (* RExtWait *)
+    apply andb_prop in Hw. destruct Hw as (-> & Hr). destruct rm; [discriminate|].
+    repeat split; auto.
+    intros Hu. destruct (I_arm Hu) as [H|[H|[H|[H|H]]]]; auto.
+    + destruct (I_sqarm H); discriminate.
+    + specialize (I_need Hu H). discriminate.
+    + destruct td as [|x0 td0]; [destruct H|]. assert (X : x0 :: td0 <> []) by discriminate.
+      specialize (I_todo X). discriminate.
+  - (* RWait *)
+    destruct (I_wait eq_refl) as (-> & -> & ->).
+    repeat split; auto.
+    intros Hu. destruct (I_arm Hu) as [H|[H|[H|[H|H]]]]; auto.
+    + destruct (I_sqarm H); discriminate.
+    + specialize (I_need Hu H). discriminate.
+    + destruct td as [|x0 td0]; [destruct H|]. assert (X : x0 :: td0 <> []) by discriminate.
+      specialize (I_todo X). discriminate.
+Qed.
+
+Lemma in_flight_progress s i w :
+  nth_error (wk s) i = Some w -> in_flight s w = true -> progress s = true.
+Proof.
+  intros Hn Hf. unfold progress, some_in_flight.
+  rewrite (existsb_nth _ _ _ _ Hn Hf). apply orb_true_r.
+Qed.
+
+Lemma notified_progress s :
+  Inv s -> at_wait s = true -> has_notified (flag (d s)) = true -> progress s = true.
+Proof.
+  intros Hi Hw Hno. destruct (wait_facts s Hi Hw) as (Hreg & _ & _ & _ & _ & Harm).
+  destruct Hi as [H1 _ _]. destruct (i_efd _ H1 Hreg Hno) as [He|Hwr].
+  - unfold progress, ready, knotify_enabled.
+    destruct (uring (c s)) eqn:Hu.
+    + destruct (Harm eq_refl) as [Hk|Hc].
+      * rewrite Hk. assert (E : Nat.ltb 0 (efd (d s)) = true) by (apply Nat.ltb_lt; exact He).
+        rewrite E. cbn. rewrite orb_true_r. reflexivity.
+      * destruct (cq (d s)); [destruct Hc|]. reflexivity.
+    + assert (E : Nat.ltb 0 (efd (d s)) = true) by (apply Nat.ltb_lt; exact He).
+      rewrite E. cbn. rewrite orb_true_r. reflexivity.
+  - unfold writers in Hwr. apply existsb_nth_inv in Hwr. destruct Hwr as (i & w & Hn & Hf).
+    eapply in_flight_progress; eauto. unfold in_flight. destruct (wp w); try discriminate. reflexivity.
+Qed.
+
+Lemma ob_idle_progress s :
+  Inv s -> at_wait s = true -> ob Idle s -> progress s = true.
+Proof.
+  intros Hi Hw Hob. destruct (wait_facts s Hi Hw) as (_ & _ & Hnw & _).
+  cbn in Hob. destruct Hob as [Hx|Hno]; [congruence|]. apply notified_progress; auto.
+Qed.
+
+Lemma queue_progress s t j :
+  Inv s -> at_wait s = true -> In (t, j) (queue (e s)) -> progress s = true.
+Proof.
+  intros Hi Hw Hin. pose proof Hi as [_ H2 H3].
+  destruct (i_qmem _ H3 t j Hin) as (w & Hn & Htg & Hp).
+  destruct (notified_after (wp w)) eqn:Hna.
+  - destruct (wait_facts s Hi Hw) as (_ & Hreg & _).
+    pose proof (i_q _ H2 t j w Hin Hn Hna) as Hob. rewrite Hreg in Hob.
+    apply ob_idle_progress; auto.
+  - eapply in_flight_progress; eauto. unfold in_flight.
+    destruct (wp w) as [| | | |nt|k|k| |]; try discriminate; try reflexivity.
+Qed.
+
+Lemma push_progress s i w nt :
+  1 <= qcap (c s) -> Inv s -> at_wait s = true ->
+  nth_error (wk s) i = Some w -> wp w = WPush nt -> progress s = true.
+Proof.
+  intros Hq Hi Hw Hn Hwp.
+  destruct (Nat.ltb (length (queue (e s))) (qcap (c s))) eqn:Hfull.
+  - eapply in_flight_progress; eauto. unfold in_flight. rewrite Hwp. destruct nt; auto.
+  - destruct nt; [|eapply in_flight_progress; eauto; unfold in_flight; rewrite Hwp; reflexivity].
+    apply Nat.ltb_ge in Hfull. destruct (queue (e s)) as [|[t j] q] eqn:Eq; [cbn in Hfull; lia|].
+    apply (queue_progress s t j); auto. rewrite Eq. left. reflexivity.
+Qed.
+
+Lemma owner_progress s i w :
+  1 <= qcap (c s) -> Inv s -> at_wait s = true ->
+  nth_error (wk s) i = Some w -> owner (wp w) = true -> progress s = true.
+Proof.
+  intros Hq Hi Hw Hn Ho.
+  destruct (wp w) as [| | | |nt|k|k| |] eqn:Hwp; try discriminate;
+    try (eapply in_flight_progress; eauto; unfold in_flight; rewrite Hwp; reflexivity).
+  eapply push_progress; eauto.
+Qed.
+
+Theorem no_lost_wake s :
+  1 <= qcap (c s) -> Inv s -> owed s = true -> stuck s = false.
+Proof.
+  intros Hq Hi Ho. unfold stuck.
+  destruct (at_wait s) eqn:Hw; [|reflexivity].
+  assert (Hp : progress s = true).
+  { unfold owed in Ho. apply existsb_nth_inv in Ho. destruct Ho as (i & w & Hn & Hf).
+    destruct (wp w) eqn:Hwp; try discriminate. destruct (seen w) eqn:Hse; [discriminate|].
+    pose proof Hi as [H1 H2 H3].
+    destruct (wait_facts s Hi Hw) as (Hreg & _ & _ & _ & Hhot & _).
+    destruct (tgt w) as [t|] eqn:Htg.
+    - (* a task *)
+      assert (Hsc : nth_error (sched (e s)) t = Some true).
+      { eapply (i_seen _ H3 i w t); eauto. rewrite Hwp. reflexivity. }
+      destruct (i_sched _ H3 t Hsc) as [Hh|[(j & Hin)|Hpu]].
+      + rewrite Hhot in Hh. destruct Hh.
+      + eapply queue_progress; eauto.
+      + unfold pushing in Hpu. apply existsb_nth_inv in Hpu. destruct Hpu as (j & w' & Hn' & Hf').
+        unfold pushing_w in Hf'. destruct (tgt w') as [t'|] eqn:Htg'; [|discriminate].
+        apply andb_prop in Hf'. destruct Hf' as (Et & Hm). apply Nat.eqb_eq in Et. subst t'.
+        destruct (wp w') as [| | | |nt|k|k| |] eqn:Hwp'; try discriminate;
+          try (eapply in_flight_progress; eauto; unfold in_flight; rewrite Hwp'; reflexivity).
+        * (* WSection: the section is free, or its owner is on its way *)
+          pose proof (i_shape _ H3 j w' Hn') as Hsh. rewrite Htg' in Hsh. destruct Hsh as (_ & Hlt).
+          rewrite <- (i_lens _ H3) in Hlt.
+          destruct (nth_error (sching (e s)) t) as [[|]|] eqn:Hsg.
+          -- destruct (i_section _ H3 t Hsg) as (k & w'' & Hn'' & _ & Hown).
+             eapply owner_progress; eauto.
+          -- eapply in_flight_progress; eauto. unfold in_flight. rewrite Hwp', Htg', Hsg. reflexivity.
+          -- apply nth_error_None in Hsg. lia.
+        * eapply push_progress; eauto.
+    - (* the main future *)
+      pose proof (i_main _ H2 i w Hn Htg) as Hob. rewrite Hwp in Hob.
+      specialize (Hob eq_refl Hse). rewrite Hreg in Hob.
+      apply ob_idle_progress; auto. }
+  unfold progress in Hp. apply orb_prop in Hp. destruct Hp as [Hp|Hp].
+  - apply orb_prop in Hp. destruct Hp as [-> | ->]; cbn; rewrite ?andb_false_r; reflexivity.
+  - rewrite Hp. cbn. rewrite ?andb_false_r. reflexivity.
+Qed.
+
+(* the protocol-level reading of the invariant *)
+Theorem wake_protocol s :
+  Inv s ->
+  (forall i w, nth_error (wk s) i = Some w -> tgt w = None -> wp w = WDone -> seen w = false ->
+     reg_main s = Pre \/ has_notified (flag (d s)) = true \/
+     (reg_main s = Idle /\ nw (r s) = false)) /\
+  (forall t i w, In (t, i) (queue (e s)) -> nth_error (wk s) i = Some w -> wp w = WDone ->
+     reg_drain s = Pre \/ has_notified (flag (d s)) = true \/
+     (reg_drain s = Idle /\ nw (r s) = false)) /\
+  (reg_main s = Idle -> has_notified (flag (d s)) = true -> 0 < efd (d s) \/ writers s = true) /\
+  (at_wait s = true -> uring (c s) = true -> karmed (d s) = true \/ In CFinal (cq (d s))).
+Proof.
+  intros Hi. pose proof Hi as [H1 H2 H3]. repeat split.
+  - intros i w Hn Ht Hw Hs. pose proof (i_main _ H2 i w Hn Ht) as Hob. rewrite Hw in Hob.
+    specialize (Hob eq_refl Hs). destruct (reg_main s); cbn in Hob; auto. destruct Hob; auto.
+  - intros t i w Hin Hn Hw. pose proof (i_q _ H2 t i w Hin Hn) as Hob. rewrite Hw in Hob.
+    specialize (Hob eq_refl). destruct (reg_drain s); cbn in Hob; auto. destruct Hob; auto.
+  - apply (i_efd _ H1).
+  - intros Hw. destruct (wait_facts s Hi Hw) as (_ & _ & _ & _ & _ & Ha). exact Ha.
+Qed.
+
+(* ---------------------------------------------------------------------- *)
+(* bounded: the runtime's own steps after the wait                         *)
+
+Theorem bounded_main s :
+  Inv s -> reg_main s = Pre ->
+  exists s', step s LR = Some s' /\
+             (pc (r s) = RMain0 \/ (reg_main s' = Pre /\ mu_main s' < mu_main s)).
+Proof.
+  intros [H1 _ _] Hreg. pose proof (i_todo _ H1) as Ht. clear H1.
+  dst s. unfold step, step_v, rt_step, mu_main. red_all.
+  assert (Htd : p <> RClear -> td = []).
+  { intros Hp. destruct td as [|x0 td0]; [reflexivity|]. exfalso. apply Hp. apply Ht. discriminate. }
+  destruct p; red_all; try discriminate Hreg.
+  - eexists. split; [reflexivity|]. left. reflexivity.
+  - (* RReset (external loop) *)
+    destruct ex; [|discriminate]. unfold do_reset. red_all.
+    eexists. split; [reflexivity|]. right. destruct ur; red_all; cbn [rank]; split; auto; lia.
+  - destruct ex; [|discriminate]. eexists. split; [reflexivity|]. right.
+    unfold arm. destruct np; red_all; cbn [rank]; split; auto; lia.
+  - (* REnter (external loop): never blocks *)
+    destruct ex; [|discriminate]. rewrite andb_false_r. unfold submit, return_ok. red_all.
+    destruct (ur && nw0 && isnil cq0) eqn:E.
+    + eexists. split; [reflexivity|]. right. red_all. cbn [rank]. split; auto; lia.
+    + eexists. split; [reflexivity|]. right. destruct ur; red_all; cbn [rank length]; split; auto; lia.
+  - (* RSetAwake1 *)
+    eexists. split; [reflexivity|]. right. rewrite (Htd ltac:(discriminate)).
+    destruct ur; red_all; cbn [rank length]; split; auto; lia.
+  - (* RPollEntries *)
+    eexists. split; [reflexivity|]. right. rewrite (Htd ltac:(discriminate)).
+    red_all. cbn [rank length]. split; auto; lia.
+  - (* RClear *)
+    destruct td as [|x rest].
+    + eexists. split; [reflexivity|]. right. red_all. cbn [rank length]. split; auto; lia.
+    + eexists. split; [reflexivity|]. right. red_all. cbn [rank length]. split; auto; lia.
+  - (* RSetAwake2 *)
+    eexists. split; [reflexivity|]. right. red_all. cbn [rank]. split; auto; lia.
+Qed.
+
+Lemma w_step_rt s i s' : w_step current s i = Some s' -> r s' = r s /\ c s' = c s /\ cq (d s') = cq (d s).
+Proof.
+  unfold w_step. intros Hs.
+  destruct (nth_error (wk s) i) as [w|]; [|discriminate].
+  destruct (wp w); destruct (tgt w); try discriminate;
+    repeat match type of Hs with
+           | context [match ?x with _ => _ end] => destruct x
+           | context [if ?b then _ else _] => destruct b
+           end; try discriminate; inv_some Hs; auto.
+Qed.
+
+Theorem bounded_env s l s' :
+  step s l = Some s' ->
+  match l with
+  | LW _ => mu_main s' = mu_main s /\ pc (r s') = pc (r s)
+  | LKNotify | LKOther | LKTerm => mu_main s' <= S (mu_main s) /\ pc (r s') = pc (r s)
+  | _ => True
+  end.
+Proof.
+  intros Hs. destruct l; auto; unfold step, step_v in Hs.
+  - destruct (_ && _); [|discriminate]. inv_some Hs. unfold mu_main. dst s. red_all.
+    rewrite app_length. cbn [length]. split; [|reflexivity]. destruct p; lia.
+  - inv_some Hs. unfold mu_main. dst s. red_all.
+    rewrite app_length. cbn [length]. split; [|reflexivity]. destruct p; lia.
+  - destruct (_ && _); [|discriminate]. inv_some Hs. unfold mu_main. dst s. red_all.
+    rewrite app_length. cbn [length]. split; [|reflexivity]. destruct p; lia.
+  - destruct (w_step_rt _ _ _ Hs) as (Hr & _ & Hc). unfold mu_main. rewrite Hr, Hc. auto.
+Qed.
+
+(* a queued id makes drain_sync take the slow path; the wait is never entered
+   with a hot task *)
+Theorem bounded_drain s :
+  Inv s ->
+  (queue (e s) <> [] -> pending (e s) <> 0) /\
+  (at_wait s = true -> hot (e s) = []).
+Proof.
+  intros Hi. split.
+  - pose proof Hi as [_ _ H3]. pose proof (i_pending _ H3) as Hp.
+    destruct (queue (e s)); [congruence|]. cbn [length] in Hp. lia.
+  - intros Hw. destruct (wait_facts s Hi Hw) as (_ & _ & _ & _ & Hh & _). exact Hh.
+Qed.
+
+(* ---------------------------------------------------------------------- *)
+(* coalescing                                                              *)
+
+Theorem coalesce_not_drop s :
+  Inv s ->
+  (forall t, nth_error (sched (e s)) t = Some true ->
+     In t (hot (e s)) \/ (exists i, In (t, i) (queue (e s))) \/ pushing t (wk s) = true) /\
+  (forall i w t s' w', nth_error (wk s) i = Some w -> wp w = WIdle -> tgt w = Some t ->
+     step s (LW i) = Some s' -> nth_error (wk s') i = Some w' ->
+     (wp w' = WCoal \/ wp w' = WDone) -> nth_error (sched (e s)) t = Some true).
+Proof.
+  intros [_ _ H3]. split; [apply (i_sched _ H3)|].
+  intros i w t s' w' Hn Hwp Htg Hs Hn' Hc. unfold step, step_v, w_step in Hs.
+  rewrite Hn, Hwp, Htg in Hs.
+  destruct (nth_error (sched (e s)) t) as [prior|] eqn:Hpr; [|discriminate].
+  inv_some Hs. unfold set_w in Hn'. cbn [wk s_wk s_e] in Hn'.
+  rewrite nth_error_upd_eq in Hn' by (eapply nth_error_lt; eauto). inv_some Hn'.
+  cbn [wp w_wp] in Hc. destruct prior; [reflexivity|].
+  destruct (match nth_error (sching (e s)) t with Some b => b | None => false end);
+    destruct Hc; discriminate.
+Qed.
+
+(* ---------------------------------------------------------------------- *)
+(* the full queue                                                          *)
+
+Theorem full_queue_waits s :
+  Inv s ->
+  (pending (e s) = length (queue (e s)) + count (fun w => reserving (wp w)) (wk s) + drained (r s)) /\
+  length (queue (e s)) <= qcap (c s) /\
+  (forall i w t nt, nth_error (wk s) i = Some w -> wp w = WPush nt -> tgt w = Some t ->
+     qcap (c s) <= length (queue (e s)) ->
+     exists s', step s (LW i) = Some s' /\ e s' = e s /\
+       exists w', nth_error (wk s') i = Some w' /\ reserving (wp w') = true /\ tgt w' = Some t).
+Proof.
+  intros [_ _ H3]. split; [apply (i_pending _ H3)|]. split; [apply (i_cap _ H3)|].
+  intros i w t nt Hn Hwp Htg Hfull. unfold step, step_v, w_step. rewrite Hn, Hwp, Htg.
+  assert (E : Nat.ltb (length (queue (e s))) (qcap (c s)) = false) by (apply Nat.ltb_ge; exact Hfull).
+  rewrite E. destruct nt.
+  - exists s. split; [reflexivity|]. split; [reflexivity|]. exists w. rewrite Hwp. auto.
+  - eexists. split; [reflexivity|]. split; [reflexivity|].
+    exists (w_wp (WFetch KSpin) w). split; [|auto].
+    unfold set_w. cbn [wk s_wk]. apply nth_error_upd_eq. eapply nth_error_lt; eauto.
+Qed.
+
+(* the queue is a FIFO: ids are appended by wakers and removed only by the
+   drain, which makes the task hot *)
+Theorem queue_fifo s l s' :
+  step s l = Some s' ->
+  queue (e s') = queue (e s) \/
+  (exists x, queue (e s') = queue (e s) ++ [x]) \/
+  (exists t i, queue (e s) = (t, i) :: queue (e s') /\ In t (hot (e s'))).
+Proof.
+  intros Hs. destruct l; unfold step, step_v in Hs.
+  - dst s. unfold rt_step in Hs. red_all.
+    destruct p; unfold arm, submit, return_ok, do_reset, apply_cqe, ready, current in Hs; red_all;
+      cbn [v_flush_arms isnil] in Hs;
+      repeat match type of Hs with
+             | context [if ?b then _ else _] => destruct b
+             | context [match ?x with _ => _ end] => destruct x
+             end; try discriminate; inv_some Hs; red_all; auto.
+    right. right. eexists _, _. split; [reflexivity|]. apply in_make_hot.
+  - unfold rt_timeout, return_ok in Hs. dst s. red_all.
+    destruct p; try discriminate; destruct ur; inv_some Hs; auto.
+  - dst s. red_all. destruct p; try discriminate. destruct ur; try discriminate. inv_some Hs. auto.
+  - unfold rt_local, local_notify in Hs. dst s. red_all.
+    destruct p; try discriminate; destruct (Nat.ltb t (length sc)); try discriminate;
+      destruct (fl_idle fl); inv_some Hs; auto.
+  - destruct (_ && _); [|discriminate]. inv_some Hs. auto.
+  - inv_some Hs. auto.
+  - destruct (_ && _); [|discriminate]. inv_some Hs. auto.
+  - unfold w_step in Hs. destruct (nth_error (wk s) i) as [w|]; [|discriminate].
+    destruct (wp w); destruct (tgt w); try discriminate;
+      repeat match type of Hs with
+             | context [match ?x with _ => _ end] => destruct x
+             | context [if ?b then _ else _] => destruct b
+             end; try discriminate; inv_some Hs; auto.
+    all: right; left; eexists; reflexivity.
+Qed.
+
+(* ---------------------------------------------------------------------- *)
+(* the two earlier code variants lose a wake-up                            *)
+
+Definition reps {A} (n : nat) (x : A) : list A := repeat x n.
+
+Definition flush_witness : list label := reps 7 LR ++ [LW 0; LW 0; LW 0].
+Definition flush_cfg : cfg := mk_cfg true true 1 61.
+
+Lemma flush_unarmed_refuted :
+  exists s, steps_v old_flush (init flush_cfg 0 [None]) flush_witness = Some s /\
+            owed s = true /\ stuck s = true /\
+            pc (r s) = RExtWait /\ karmed (d s) = false /\ efd (d s) = 1.
+Proof. eexists. split; [vm_compute; reflexivity|]. repeat split; vm_compute; reflexivity. Qed.
+
+Lemma flush_armed_ok :
+  exists s, steps (init flush_cfg 0 [None]) flush_witness = Some s /\
+            owed s = true /\ at_wait s = true /\ stuck s = false /\ knotify_enabled s = true.
+Proof. eexists. split; [vm_compute; reflexivity|]. repeat split; vm_compute; reflexivity. Qed.
+
+Definition spin_witness : list label :=
+  reps 6 (LW 0) ++ reps 4 (LW 1) ++ reps 12 LR ++ [LKNotify] ++ reps 14 LR ++ [LW 1; LW 1].
+Definition spin_cfg : cfg := mk_cfg true false 1 61.
+
+Lemma spin_wake_refuted :
+  exists s, steps_v old_spin (init spin_cfg 2 [Some 0; Some 1]) spin_witness = Some s /\
+            owed s = true /\ stuck s = true /\
+            pc (r s) = RWait /\ queue (e s) = [(1, 1)] /\ flag (d s) = AWAKE_IDLE.
+Proof. eexists. split; [vm_compute; reflexivity|]. repeat split; vm_compute; reflexivity. Qed.
+
+Lemma spin_wake_ok :
+  exists s, steps (init spin_cfg 2 [Some 0; Some 1]) spin_witness = Some s /\
+            at_wait s = true /\ stuck s = false /\ queue (e s) = [(1, 1)] /\
+            has_notified (flag (d s)) = true.
+Proof. eexists. split; [vm_compute; reflexivity|]. repeat split; vm_compute; reflexivity. Qed.
+
+(* the configuration never changes *)
+Lemma step_cfg s l s' : step s l = Some s' -> c s' = c s.
+Proof.
+  intros E. destruct l; unfold step, step_v in E.
+  - unfold rt_step in E.
+    destruct (pc (r s)); unfold return_ok, do_reset, goto in E;
+      repeat match type of E with
+             | context [if ?b then _ else _] => destruct b
+             | context [match ?x with _ => _ end] => destruct x
+             end; try discriminate; inversion E; reflexivity.
+  - unfold rt_timeout, return_ok in E. destruct (pc (r s)); try discriminate;
+      destruct (uring (c s)); inversion E; reflexivity.
+  - destruct (pc (r s)); try discriminate. destruct (uring (c s)); [discriminate|].
+    inversion E; reflexivity.
+  - unfold rt_local, local_notify in E. destruct (pc (r s)); try discriminate;
+      destruct (Nat.ltb _ _); try discriminate; destruct (fl_idle _); inversion E; reflexivity.
+  - destruct (_ && _); [|discriminate]. inversion E; reflexivity.
+  - inversion E; reflexivity.
+  - destruct (_ && _); [|discriminate]. inversion E; reflexivity.
+  - destruct (w_step_rt _ _ _ E) as (_ & H & _). exact H.
+Qed.
+
+Lemma steps_cfg ls : forall a b, steps a ls = Some b -> c b = c a.
+Proof.
+  induction ls as [|l ls IH]; intros a b H; [inversion H; reflexivity|].
+  unfold steps in H. cbn [steps_v] in H. destruct (step_v current a l) as [a1|] eqn:E; [|discriminate].
+  rewrite (IH _ _ H). eapply step_cfg. exact E.
+Qed.
+
+Theorem no_lost_wake_reach cf n tg ls s :
+  1 <= qcap cf -> targets_ok n tg ->
+  steps (init cf n tg) ls = Some s ->
+  owed s = true -> stuck s = false.
+Proof.
+  intros Hq Hok Hs Ho.
+  assert (Hc : c s = cf) by (rewrite (steps_cfg _ _ _ Hs); reflexivity).
+  apply no_lost_wake; [rewrite Hc; exact Hq|eapply reachable_inv; eauto|exact Ho].
+Qed.
